@@ -33,3 +33,16 @@ Example C19_example :
   module_kind (fun _ => true) (fun n => orb (String.eqb n ".pdata") (String.eqb n ".eh_frame")) = KGuarded FPe ".pdata" /\
   module_kind (fun _ => false) (fun n => orb (String.eqb n ".pdata") (String.eqb n ".eh_frame")) = KUnguarded ".eh_frame".
 Proof. vm_compute. auto. Qed.
+
+(* the classification of DWARF errors (cached fallback or not) does not depend on a feature: no arm of
+   depends_on_registers_or_stack that mentions a DWARF error is feature-guarded (regenerated from error.rs; a `#[cfg]`
+   in front of an arm guards every alternative of its or-pattern - seeded change C19-3) *)
+Example C19_dwarf_error_classification_unguarded :
+  match SRC_STATE_DEPENDENT_ERRORS with
+  | Some l => forallb (fun x => match x with
+                                | (Some _, n) => negb (String.prefix "Dwarf::" n)
+                                | (None, _) => true
+                                end) l = true
+  | None => False
+  end.
+Proof. reflexivity. Qed.
